@@ -38,6 +38,9 @@ const FILL_MIN: usize = 4096;
 pub struct SimDisk {
     ext: BTreeMap<u64, Extent>,
     len: u64,
+    /// logical truncation: when set, the disk behaves as if it ended here (torn tail) without
+    /// copying the image; writes are not allowed while a cap is in place
+    cap: Option<u64>,
 }
 
 impl SimDisk {
@@ -55,7 +58,14 @@ impl SimDisk {
     }
 
     pub fn len(&self) -> u64 {
-        self.len
+        match self.cap {
+            Some(c) => self.len.min(c),
+            None => self.len,
+        }
+    }
+
+    pub fn set_cap(&mut self, cap: Option<u64>) {
+        self.cap = cap;
     }
 
     pub fn extent_count(&self) -> usize {
@@ -103,6 +113,7 @@ impl SimDisk {
         if data.is_empty() {
             return;
         }
+        assert!(self.cap.is_none(), "write to a capped (read-only) simulated disk");
         let end = off + data.len() as u64;
         // Fast paths: overwrite inside, or append to, the Raw extent that covers / precedes `off`.
         if let Some((k, e)) = self.ext.range_mut(..=off).next_back() {
@@ -153,10 +164,11 @@ impl SimDisk {
 
     /// Copy up to `buf.len()` bytes stored at `off`; returns how many exist (holes read as 0).
     pub fn read_at(&self, off: u64, buf: &mut [u8]) -> usize {
-        if off >= self.len || buf.is_empty() {
+        let len = self.len();
+        if off >= len || buf.is_empty() {
             return 0;
         }
-        let n = std::cmp::min(buf.len() as u64, self.len - off) as usize;
+        let n = std::cmp::min(buf.len() as u64, len - off) as usize;
         let end = off + n as u64;
         let mut zeroed = false;
         // Common case: one Raw extent covers everything.
